@@ -159,6 +159,17 @@ def memo_case():
         report({"A": 1, "P": ["caller-2"]})
         if runs["n"] != 1:
             msgs.append(f"consumer of a dataset with pre-set P={preset!r} ran {runs['n']} times although only the overridden option P changed")
+    # C01: the caller's own dictionary changed IN PLACE between two evaluations of one long-lived cached node / dataset
+    from labrea import cached
+    for make in (lambda: cached(Option("N") >> (lambda n: n * n)), lambda: dataset(lambda n=Option("N"): n * n)):
+        node = make()
+        live = {"N": 10, "RUN": {"NAME": "x"}}
+        got = []
+        for n in (10, 11, 12, 11):
+            live["N"] = n
+            got.append(node(live))
+        if got != [100, 121, 144, 121]:
+            msgs.append(f"one dictionary object mutated in place (N = 10, 11, 12, 11) gives {got}, uncached evaluation gives [100, 121, 144, 121]")
     return msgs
 
 
